@@ -102,6 +102,7 @@ class Script:
 
     def reopen(self):
         self.h.append("close h0")
+        self.h.append("dump s0")                 # the closed file: compared with the run that does not make the refused calls (twin pass)
         self.h.append("open h1 s0 r" + (" fmt=%08x ch=%d sr=8000" % (self.fmt, self.ch) if (self.fmt >> 16) == 0x04 else ""))
         self.m.append("reopen")
         self.handle = "h1"
@@ -209,6 +210,77 @@ def build(ctx, quick):
     return S
 
 
+def twin_pass(ctx, S, out, stats):
+    """The C09 clause on the FILE: every script in which a SET answered SF_FALSE is run again WITHOUT those calls (the base history);
+    the closed file's bytes, the re-open and the GET on the re-opened file must be the same.  Judged by `sfmodel abs-twin`
+    (Sf.AbsTwin.judge: clauses file / reopen / state); the replay is a twin replay (`c09-twin`, vlib/c09twin.py `replay`).
+    The handler-private state this looks at (wavex_channelmask / chanmap_tag next to psf->channel_map) is lean/SfModel/ChmapPriv.lean."""
+    from . import c09twin
+    cands = []
+    for s in S:
+        lines = [l for l in out.get(s.name, []) if l.startswith(ctx.TRANSCRIPT_PREFIXES)]
+        if len(lines) != len(s.h) or not lines[0].startswith("open=ok") or "close h0" not in s.h:
+            continue
+        refused = [hi for (hi, mi, kind) in s.cmp if kind == "set" and s.h[hi].startswith("cmd h0") and abscheck.parse_kv(lines[hi]).get("ret") == "0"]
+        if refused:
+            cands.append((s, lines, refused))
+    if not cands:
+        return False
+    base = ctx.batch([(s.name + "-base", "\n".join(l for k, l in enumerate(s.h) if k not in refused) + "\n") for (s, lines, refused) in cands], workers=3)
+    recs, who = [], {}
+    for (s, lines, refused) in cands:
+        bl = [l for l in base.get(s.name + "-base", []) if l.startswith(ctx.TRANSCRIPT_PREFIXES)]
+        kept = [k for k in range(len(s.h)) if k not in refused]
+        stats["twin_scripts"] = stats.get("twin_scripts", 0) + 1
+        stats["twin_refused_calls"] = stats.get("twin_refused_calls", 0) + len(refused)
+        if len(bl) != len(kept):
+            continue
+        ls = ["== " + s.name]
+        for k in refused:
+            kv = abscheck.parse_kv(lines[k])
+            ls.append("ins k=%d must=0 refused=1 err=%s msglen=-1" % (k, kv.get("err", "0") or "0"))
+        for bi, k in enumerate(kept):
+            if k == 0:
+                continue
+            ls.append("pair k=%d phase=%s" % (k, c09twin.phase_of(s.h, k)))
+            ls.append(bl[bi])
+            ls.append(lines[k])
+        recs.append("\n".join(ls) + "\n")
+        who[s.name] = (s, lines, refused, kept, bl)
+    verdicts, rc, err = c09twin.run_driver(ctx, "".join(recs))
+    if rc != 0 or len(verdicts) != len(who):
+        ctx.violation("chmap-twin-driver", "sfmodel abs-twin failed: rc=%d, %d verdicts for %d records; %s" % (rc, len(verdicts), len(who), err), no_input=True)
+        return True
+    found, reported = False, set()
+    for name, (status, detail) in sorted(verdicts.items()):
+        if status == "ok":
+            continue
+        stats["twin_rejected"] = stats.get("twin_rejected", 0) + 1
+        s, lines, refused, kept, bl = who[name]
+        kv = abscheck.parse_kv(detail)
+        clause, k = kv.get("clause", "?"), int(kv.get("k", "0"))
+        key = (s.fmt >> 16, clause)
+        found = True
+        if key in reported or len(reported) >= 3:
+            continue
+        reported.add(key)
+        bi = kept.index(k) if k in kept else 0
+        a, b = bl[bi], lines[k]
+        if clause == "file":
+            ha, hb = a.split("hex=")[-1], b.split("hex=")[-1]
+            d = next((i for i in range(0, min(len(ha), len(hb)), 2) if ha[i:i + 2] != hb[i:i + 2]), min(len(ha), len(hb)))
+            what = "the closed file differs: first difference at byte %d (%s without the refused call, %s with it)" % (d // 2, ha[d:d + 16], hb[d:d + 16])
+        else:
+            what = "line `%s` answers `%s` with the refused call(s), `%s` without" % (s.h[k][:60], b[:120], a[:120])
+        ctx.violation("chmap-twin-%s" % s.name,
+                      "# C09 (twin run): a refused SFC_SET_CHANNEL_MAP_INFO changed the %s\n# %s\n# refused: %s\n"
+                      "# re-run: bin/check C09 --replay <this file> (runs the script, then the same script without the calls it saw refused, and compares)\n"
+                      "c09-twin ch=%d\ntwin-inserted %s\ntwin-must \n--- script\n%s\n"
+                      % ({"state": "handle state", "file": "closed file", "reopen": "re-opened file"}.get(clause, clause), what,
+                         "; ".join("line %d `%s` -> %s" % (r, s.h[r], lines[r][:40]) for r in refused), s.ch, ",".join(str(r) for r in refused), "\n".join(s.h[:k + 1])))
+    return found
+
+
 def run(ctx, quick=True):
     """returns True if a violation was reported"""
     for kf in ctx.known:
@@ -278,6 +350,8 @@ def run(ctx, quick=True):
                     or (want_data is not None and s.h[hi].split()[4] != "null" and hk.get("data") != want_data):
                 corr.append((s, hi, lines[hi][:160], ml[mi][:160]))
                 break
+    tw = twin_pass(ctx, S, out, stats)
+    found = found or tw
     if corr and not found:
         s, hi, il, m = corr[0]
         found = True
